@@ -44,7 +44,7 @@ def rule_a9_set(ctx):
                 if last and (base.endswith('.tagSet') or base.endswith('.minTagSet') or base.endswith('TagSet')):
                     ctx.ob('A9.set', m, 'return %s' % txt, True, 'projection on the outermost tag', node=r)
                     continue
-            if txt.endswith('.tagSet') or txt.endswith('.minTagSet'):
+            if txt.endswith('.tagSet') or txt.endswith('.minTagSet') or txt.endswith('.effectiveTagSet'):
                 ctx.ob('A9.set', m, 'return %s' % txt, False,
                        'the key is a whole tag set, which compares from the base (innermost) tag: explicitly tagged SET '
                        'members are ordered by their inner tag instead of the outermost one (X.690 10.3)', node=r)
@@ -344,6 +344,28 @@ def rule_a12(ctx):
                    '(x = substrate.tell()) point elsewhere afterwards' % (
                        norm(rebinds[0]), sorted(written), sorted(readers['tell']), sorted(readers['seek'])) if not comp
                    else 'compensated through %s' % comp, node=rebinds[0])
+    # the mark stored when the cache is rebound is in the coordinates tell() reports
+    offs = sorted(readers['tell'] - {'_cache'})
+    for name, defs in sorted(w.attrs.items()):
+        for d in defs:
+            if d[0] != 'func' or d[1].name == '__init__':
+                continue
+            m = d[1]
+            body = list(walk_own(m.node))
+            rebinds = [n for n in body if isinstance(n, ast.Assign) and any(norm(t) == 'self._cache' for t in n.targets)]
+            for r in rebinds:
+                marks = [n for n in body if isinstance(n, ast.Assign) and any(norm(t) == 'self._markedPosition' for t in n.targets)
+                         and n.lineno > r.lineno]
+                for mk in marks:
+                    txt = norm(mk.value)
+                    if offs:
+                        ok = txt == 'self.tell()' or all(('self.' + a) in txt for a in offs)
+                    else:
+                        ok = txt in ('0', 'self._cache.tell()', 'self.tell()')
+                    ctx.ob('A12.mark', m, 'mark stored after the cache is rebound is in tell() coordinates', ok,
+                           'tell() reports `self._cache.tell()` plus %s, the mark is reset to `%s`: seek(markedPosition) (ANY / '
+                           'open-type capture) goes to another place, or before the start of the cache' % (offs, txt) if not ok
+                           else '`%s` with tell() offsets %s' % (txt, offs), node=mk)
     # the decoder does hold positions across nested decodes
     dec = ctx.mod('codec.ber.decoder')
     holds = 0
@@ -381,6 +403,13 @@ def rule_a9_dynamic(ctx):
         ctx.ob('A9.dyn', f, 'untagged CHOICE resolved by the chosen alternative in both arms', False,
                'the untagged-CHOICE arm has %d return(s): value arm and python-value arm are not both resolved dynamically' % len(rets), node=arms[0])
         return
+    # the two arms resolve the CHOICE to the same depth (one level, or both recursively)
+    rec = [isinstance(r.value, ast.Call) and call_name(r.value) == '_componentSortKey' for r in rets]
+    ctx.ob('A9.dyn', f, 'value arm and python-value arm resolve a nested untagged CHOICE alike', len(set(rec)) == 1,
+           'one arm recurses into the chosen alternative (`%s`), the other takes its outer tag (`%s`): a SET with a nested '
+           'untagged CHOICE member is ordered differently for a value object and for the equal Python value' % (
+               norm(rets[rec.index(True)].value)[:60], norm(rets[rec.index(False)].value)[:60]) if len(set(rec)) > 1 else 'same depth',
+           node=arms[0])
     for r in rets:
         txt = norm(r.value)
         dyn = 'getComponent()' in txt or any(isinstance(x, ast.Subscript) and norm(x.value) == 'asn1Spec' for x in ast.walk(r.value))
